@@ -62,6 +62,14 @@ def check_plain(name, plain):
     ports = [str(p) for p in plain.get("ports", [])] if "ports" in plain else None
     isa = str(plain.get("isa")).lower() if plain.get("isa") else None
     n = 0
+    # header: a model file is identified by its architecture code (Frontend(path_to_yaml=...) and
+    # MachineModel.get_arch() use it); ISA databases carry none
+    if ports is not None:
+        n += 1
+        if not isinstance(plain.get("arch_code"), str) or not plain["arch_code"].strip():
+            bad.append(("header", "arch_code is %r: the model cannot name its architecture "
+                        "(MachineModel.get_arch() / Frontend(path_to_yaml=...) fail)"
+                        % (plain.get("arch_code"),), -1))
     for j, e in enumerate(plain.get("instruction_forms") or []):
         n += 1
         if not isinstance(e, dict) or "name" not in e:
